@@ -129,7 +129,11 @@ def le(W):
 
 
 def make_world(ex, shape, real):
-    return World(ex, shape["n"], nprio=len(shape["methods"]), real=real)
+    M = len(shape["methods"])
+    W = World(ex, shape["n"], nprio=M + 1, real=real)
+    for m in range(M):          # the forwarding helper method outranks every method of the set
+        ex.s.add(W.P[M] > W.P[m])
+    return W
 
 
 _MS = {}
@@ -147,17 +151,27 @@ def make_run(W, shape, known_active=None):
     key = npos, M
     ms = _MS.get(key)
     if ms is None:
-        ms = _MS[key] = MethodSet([dict(pos=[(nm, ("obj",), False) for nm in "xy"[:npos]]) for _ in range(M)])
+        specs_ = [dict(pos=[(nm, ("obj",), False) for nm in "xy"[:npos]]) for _ in range(M)]
+        if npos == 1:
+            # an extra method on instances of K2 that forwards the passed TYPE through recurse: the rewritten call site must
+            # key type-valued arguments exactly like the entry point does
+            specs_.append(dict(pos=[("x", ("obj",), False)], body="return ('rec', recurse(PASSED[0]))"))
+        ms = _MS[key] = MethodSet(specs_)
     sup = [tuple(norm_ann(a) for a in m) for m in methods]
-    rule = GRule(sup, tuple(args), W.P, app(W), le(W))
+    rule = GRule(sup, tuple(args), W.P[:M], app(W), le(W))
     regs = [sorted({s[k] for s in sup}, key=repr) for k in range(npos)]
 
     def run(ctx):
-        hs, LOG, ns = ms.instantiate(W)
+        PASSED = [None]
+        hs, LOG, ns = ms.instantiate(W, extra={"PASSED": PASSED})
         ov = Ovld()
         for m in range(M):
             hs[m].__annotations__ = {nm: build_ann(a, W) for nm, a in zip("xy", methods[m])}
             ov.register(hs[m], priority=W.prio[m])
+        via_recurse = npos == 1 and args[0][0] == "cls" and not any(a[0] == ("K", 2) for a in sup)
+        if via_recurse:
+            hs[M].__annotations__ = {"x": W.K[2]}
+            ov.register(hs[M], priority=W.prio[M])
         actual = []
         for a in args:
             if a[0] == "inst":
@@ -166,6 +180,14 @@ def make_run(W, shape, known_active=None):
                 actual.append(build_t(a[1], W))
         out, res = outcome_of(lambda: ov.dispatch(*actual), LOG)
         sane = (len(LOG) == 1 and res == out[1] and all(x is y for x, y in zip(LOG[0][1], actual))) if out[0] == "ran" else not LOG
+        if via_recurse and sane:
+            PASSED[0] = actual[0]
+            from symx.kit import full_outcome
+
+            chain, term = full_outcome(lambda: ov.dispatch(W.inst[2]), LOG)
+            inner = ("ran", chain[1]) if len(chain) == 2 and term[0] == "ret" else ((term[0],) if chain == [M] and term[0] in ("AMB", "NOM") else ("?", chain, term))
+            if inner != out:
+                sane = False
         apps = [rule.app(m) for m in range(M)]
         anyapp, anywin = rule.any_app(), rule.any_win()
         known = []
@@ -184,7 +206,8 @@ def make_run(W, shape, known_active=None):
         else:
             post = z3.BoolVal(False)
         napp = sum(1 for m in range(M) if z3.is_true(ctx.value(apps[m])))
-        info = dict(methods=[", ".join(tstr(a) for a in m) for m in methods], call=[tstr(a) for a in args], outcome=list(out))
+        info = dict(methods=[", ".join(tstr(a) for a in m) for m in methods], call=[tstr(a) for a in args], outcome=list(out),
+                    same_through_recurse=(sane if via_recurse else None))
         return Verdict(post, known, info, [out[0]], nontrivial=napp >= 2)
 
     return run
